@@ -349,6 +349,43 @@ def setup_thorough():
     return 0
 
 
+def replay(path):
+    """re-runs the single history / grid index named in a replay file and prints what the monitors say"""
+    import json
+    with open(path) as f:
+        d = json.load(f)
+    cfgname = d.get("cfg")
+    if not cfgname or d.get("hist") is None:
+        print("replay file has no (configuration, history index): %s" % json.dumps(d)[:400])
+        return 2
+    pools = (list(vec.QUICK) + vec.THOROUGH_EXTRA + sets.FS_QUICK + sets.FS_THOROUGH + sets.SS_SPACE_QUICK + sets.SS_SPACE_THOROUGH + sets.SS_HIST_QUICK + sets.SS_HIST_THOROUGH +
+             sets.HG_QUICK + sets.HG_THOROUGH + sets.COST_QUICK + sets.COST_THOROUGH + vec.GROWTH_QUICK + vec.GROWTH_THOROUGH + vec.ALIAS_QUICK + vec.ALIAS_THOROUGH +
+             vec.LIMITS_QUICK + vec.LIMITS_THOROUGH + vec.FAULT_QUICK + vec.FAULT_THOROUGH + sets.SETFAULT_QUICK + sets.SETFAULT_THOROUGH + vec.SWAP2_QUICK + vec.SWAP2_THOROUGH +
+             sets.ALGO_QUICK + sets.ALGO_THOROUGH + sets.REALLOC_DIRECT)
+    cobj = None
+    for c in pools:
+        if c.name == cfgname:
+            cobj = c
+    if cobj is None:
+        print("configuration %s is not in the tables" % cfgname)
+        return 2
+    sp = cobj.spec()
+    b = core.build_many([sp])[sp["name"]]
+    args = [a for a in d.get("args", [])]
+    if "--ops" not in args:
+        args = ["--ops", "80" if sp["name"].startswith("vh_") or sp["name"].startswith("ss_") else "60"] + args
+    h = int(d["hist"])
+    r = core.run_history_range(b, cfgname, int(d.get("seed", core.SEED)), h, h + 1, args, 900, 2)
+    for v in r["viols"]:
+        print("monitor %s  sig %s  op#%s\n   %s\n   %s" % (v.get("mon"), v.get("sig"), v.get("op"), v.get("desc"), v.get("detail")))
+    for c in r["crashes"]:
+        print("process died: %s during %s (%s)\n%s" % (c["what"], c.get("sig"), c.get("desc"), c.get("stderr", "")[-1500:]))
+    if not r["viols"] and not r["crashes"]:
+        print("replay of %s history %d: no monitor fired" % (cfgname, h))
+        return 0
+    return 1
+
+
 EXTRA_SETUP = [lambda: [c16.spec(b) for b in c16.matrix("quick")], lambda: [c20.spec()]]
 
 CHECKS = {"C01": c01, "C02": c02, "C05": c05, "C06": c06, "C07": c07, "C03": c03, "C04": c04, "C11": c11, "C12": c12, "C19": c19, "C18": c18, "C10": c10, "C08": c08, "C09": c09, "C13": c13, "C15": c15, "C16": c16_check, "C17": c17_check, "C14": c14, "C20": c20_check}
